@@ -35,6 +35,7 @@ pub fn run(id: &str, ctx: &Ctx) -> bool {
         "C17" => strings::c17(ctx),
         "C18" => strings::c18(ctx),
         "C19" => nums::c19(ctx),
+        "miri-leg" => bytes::miri_leg(ctx),
         "C20" => grammar::c20(ctx),
         _ => return false,
     }
